@@ -267,6 +267,7 @@ const (
 	EvAvgAdj   = "avgadj"
 	EvDecNew   = "decnew"
 	EvAvgAdd   = "avg.add"
+	EvServed   = "served" // the container goroutine is building bar ID (inside Progress.Add's request)
 )
 
 // SpyRec is the value of an EvSpy entry.
